@@ -872,7 +872,8 @@ func (tf *transformer) transformCompile(args []string) ([]string, error) {
 			newPaths = append(newPaths, path)
 		}
 		if flagDebugDir != "" {
-			debugArtifacts.GarbledFiles[basename] = src
+			// printFile returns a slice of a buffer which it reuses for the next file.
+			debugArtifacts.GarbledFiles[basename] = bytes.Clone(src)
 		}
 	}
 	if tf.curPkg.ImportPath == "runtime" && flagTiny {
